@@ -5,7 +5,7 @@ SPEC = {
     "tie": ["Tie.C12", "Tie.C11"],  # Client.Checkpoint verifies with NewRFC6962Verifier (checkpoint.go), whose guards are tied in Tie.C11
     "engines": [{"engine": "client", "timeout": 1500}],
     "required_theorems": [
-        "C12_entries_authentic", "C12_entry_index", "C12_entry_index_strict", "C12_inclusion", "C12_checkpoint",
+        "C12_entries_authentic", "C12_entries_authentic_tiles", "C12_entry_index", "C12_entry_index_strict", "C12_inclusion", "C12_checkpoint",
         "cutentry", "entries", "allentries", "entry", "checkinclusion", "checkpoint", "with_cut_entry", "tile_width",
         "torchwood_tile_loop", "torchwood_entry",
     ],
@@ -23,10 +23,14 @@ SPEC = {
         "over exactly that size and root hash."
     ),
     "level_note": (
-        "partial in one named respect: in Entries/AllEntries the leaf hashes an entry is compared with come from "
-        "tlog.TileHashReader; that it returns only hashes authenticated against the tree head is its documented contract and "
-        "an explicit hypothesis (hauth) of C12_entries_authentic, not proved (Entry and CheckInclusion need no such "
-        "hypothesis). torchwood's fetching, batching, retrying and caching and note.Open's text framing are exercised, not "
+        "in Entries/AllEntries the leaf hashes an entry is compared with come from tlog.TileHashReader. C12_entries_authentic "
+        "takes their authenticity as a hypothesis (hauth); C12_entries_authentic_tiles discharges it: it assumes only what "
+        "ReadHashes has CHECKED when it returns (the right-edge hash tiles, with the widths the size prescribes, recombine to "
+        "the root; every other tile hashes to its entry in a tile checked before it) and derives authenticity of every returned "
+        "leaf hash from NodeInj alone, for every tree size and tile level (Proofs/TileAuth.lean: mth_items, edge_sound, "
+        "child_sound, verified_sound; edge_complete/child_complete show the hypotheses are met by the authentic tiles of every "
+        "tree). What remains modelled rather than transliterated is tlog's stored-hash-index arithmetic (which tiles it asks "
+        "for and how it walks the peaks): the recombination is modelled as the per-level fold edgeF. torchwood's fetching, batching, retrying and caching and note.Open's text framing are exercised, not "
         "modelled. The model is tied to the source by go/ast facts (every guard of cutEntry, the Entries/AllEntries wrappers, "
         "Entry, CheckInclusion, Checkpoint in client.go; in the pinned torchwood the guards of the per-tile loop and of "
         "Client.Entry) and by running the real sunlight.Client (file://, gzip+file://, HTTP) against real logs at sizes "
@@ -41,7 +45,7 @@ SPEC = {
     ),
     "assumptions": [
         "SHA-256 (tlog.RecordHash, tlog.NodeHash) is collision-free: hypotheses LeafInj and NodeInj of the theorems (satisfiable: free term algebra in the examples).",
-        "tlog.TileHashReader returns for a stored-hash index only the hash committed to by the tree head it was given (it hashes every fetched tile up to that head), or fails: hypothesis hauth of C12_entries_authentic. Exercised by hash-tile tampering (bit flips, truncation, extension, removal, tiles of another log); not proved.",
+        "tlog.TileHashReader performs the checks of TileAuth.Verified (edge tiles recombined to the tree hash and compared with the trusted root; every other tile compared, through tileHash, with its entry in the parent tile) before it returns a hash: hypothesis of C12_entries_authentic_tiles, read off tlog/tile.go at the pinned version; from there authenticity is PROVED. Exercised by hash-tile tampering (bit flips, truncation, extension, removal, tiles of another log).",
         "ECDSA verification (ct-go tls.VerifySignature, the RFC 6962 note verifier) is a parameter of the model; in the differential run it is an oracle table of the (message, signature) pairs the harness verified with crypto/ecdsa under the configured key. Unforgeability is idealised.",
         "note.Open is modelled at the level of parsed signature lines (Model/Checkpoint.lean, shared with C11): unknown keys are ignored, a known key's bad signature is an error, at least one verified signature is required; the harness parses the served note with its own parser and feeds both.",
         "The tree head passed to Entries/Entry/CheckInclusion is assumed verified by the caller (as the API documents); the harness passes the ground-truth head.",
